@@ -40,8 +40,15 @@ class Fifo:
         os.unlink(self.path)
 
 
-def run_jobserver_case(root, g, tokens, j, k, faults, sleepy):
-    """returns (finding or None, labels)"""
+def run_jobserver_case(root, g, tokens, j, k, faults, sleepy, console=()):
+    """returns (finding or None, labels). console: picks of command statements that are put into the console pool"""
+    if console:
+        import copy
+        g = copy.deepcopy(g)
+        cand = [e for e in g['edges'] if not e['phony'] and e.get('deps') != 'msvc' and not e.get('bare')]
+        for i in console:
+            if cand:
+                cand[i % len(cand)]['pool'] = 'console'
     sim = e2e.RealSim(root, g)
     labels = set()
     fifo = None
@@ -57,7 +64,9 @@ def run_jobserver_case(root, g, tokens, j, k, faults, sleepy):
         fifo = Fifo(os.path.join(root, "jobserver.fifo"), tokens)
         sim.omit_j = True
         sim.extra_env = {"MAKEFLAGS": " -j%d --jobserver-auth=fifo:%s" % (tokens + 1, fifo.path),
-                         "VERIF_SLEEP": ",".join("%s:%d" % (key(e), 15 + 10 * (i % 3)) for i, e in enumerate(cmds)) if sleepy else ""}
+                         # console commands run longer, so that they are still running when another command fails
+                         "VERIF_SLEEP": ",".join("%s:%d" % (key(e), (70 if e.get('pool') == 'console' else 15) + 10 * (i % 3)) for i, e in enumerate(cmds))
+                         if (sleepy or console) else ""}
         fl = {}
         for (a, code) in faults:
             fl[key(cmds[a % len(cmds)])] = dict(fail=code, fail_touch=False)
@@ -82,6 +91,8 @@ def run_jobserver_case(root, g, tokens, j, k, faults, sleepy):
             labels.add('jobserver_failure')
         if any(c == 130 for _, c in faults):
             labels.add('jobserver_exit130')
+        if fl and any(e.get('pool') == 'console' for e in cmds):
+            labels.add('jobserver_failure_with_console_command')
         detail = dict(tokens=tokens, j=j, k=k, faults=faults, manifest=graphs.manifest(sim.g)[-400:], output=res['err'][-400:])
         if left != tokens:
             return dict(kind="jobserver tokens not all returned: %d in the fifo before, %d after ninja exited (status %d)" % (tokens, left, res['status']), detail=detail), labels
@@ -114,13 +125,14 @@ def jobserver_worker(widx, n_examples):
         @settings(max_examples=n_examples, deadline=None, database=None, suppress_health_check=list(HealthCheck),
                   phases=[Phase.generate, Phase.shrink], verbosity=Verbosity.quiet, report_multiple_bugs=False)
         @given(graphs.graphs(max_edges=6, features=dict(unordered_hidden=False)), st.integers(0, 3), st.sampled_from([1, 2, 3, 8]), st.sampled_from([1, 2, 0]),
-               st.lists(st.tuples(st.integers(0, 20), st.sampled_from([1, 2, 130, 130, 255])), max_size=2), st.booleans())
-        def test(g, tokens, j, k, faults, sleepy):
-            case = dict(g=g, tokens=tokens, j=j, k=k, faults=[list(f) for f in faults], sleepy=sleepy)
+               st.lists(st.tuples(st.integers(0, 20), st.sampled_from([1, 2, 130, 130, 255])), max_size=2), st.booleans(),
+               st.one_of(st.just([]), st.just([]), st.lists(st.integers(0, 20), min_size=1, max_size=2)))
+        def test(g, tokens, j, k, faults, sleepy, console):
+            case = dict(g=g, tokens=tokens, j=j, k=k, faults=[list(f) for f in faults], sleepy=sleepy, console=console)
             dg = common.digest(case)
             if budget.skip(dg):
                 return
-            f, labels = run_jobserver_case(root, g, tokens, j, k, faults, sleepy)
+            f, labels = run_jobserver_case(root, g, tokens, j, k, faults, sleepy, console)
             res.case(case, 'jobserver_build' in labels and (tokens > 0 or bool(faults)), ['js:' + l for l in labels],
                      sample=dict(tokens=tokens, j=j, k=k, faults=case['faults']) if 'jobserver_failure' in labels else None)
             if f:
@@ -136,7 +148,8 @@ def jobserver_worker(widx, n_examples):
 def replay_js(case):
     root = common.scratch_root()
     try:
-        f, _ = run_jobserver_case(root, case['g'], case['tokens'], case['j'], case['k'], [tuple(x) for x in case['faults']], case['sleepy'])
+        f, _ = run_jobserver_case(root, case['g'], case['tokens'], case['j'], case['k'], [tuple(x) for x in case['faults']], case['sleepy'],
+                                  case.get('console', ()))
     finally:
         shutil.rmtree(root, ignore_errors=True)
     return f['kind'] if f else None
